@@ -196,6 +196,14 @@ def parse_assumptions(out):
 
 
 def eval_shards(outdir, jobs=16, timeout=3000):
+    # one evaluation phase at a time per machine: concurrent checks queue here
+    import fcntl
+    with open(os.path.join(VERIF, ".eval.lock"), "w") as lk:
+        fcntl.flock(lk, fcntl.LOCK_EX)
+        return _eval_shards(outdir, jobs, timeout)
+
+
+def _eval_shards(outdir, jobs=16, timeout=3000):
     shards = sorted(glob.glob(os.path.join(outdir, "cases_*.v")),
                     key=lambda p: int(re.search(r"cases_(\d+)\.v", p).group(1)))
     if not shards:
